@@ -25,26 +25,76 @@ use crate::world::Violation;
 
 const MAX_OUT: usize = 6;
 
+/// A value type without drop glue.
+pub trait Payload: Sized + 'static {
+    const NAME: &'static str;
+    fn make(id: u32) -> Self;
+    fn intact(&self, id: u32) -> bool;
+    /// keep an owned handle in raw form (a type with no room for it leaves it with the harness)
+    fn keep(&self, k: usize, raw: *const Self);
+}
+
 /// No field has drop glue: `needs_drop::<RawNode>()` is false.
 pub struct RawNode {
     pub id: u32,
     pub canary: Cell<u64>,
     pub out: Cell<[*const RawNode; MAX_OUT]>,
-    pub n_out: Cell<usize>,
 }
 
 const CANARY: u64 = 0x5AFE_C0DE_D00D_F00D;
 
-fn new_node(id: u32) -> Rc<RawNode> {
+impl Payload for RawNode {
+    const NAME: &'static str = "raw-pointer node";
+    fn make(id: u32) -> Self {
+        RawNode { id, canary: Cell::new(CANARY), out: Cell::new([std::ptr::null(); MAX_OUT]) }
+    }
+    fn intact(&self, id: u32) -> bool {
+        self.id == id && self.canary.get() == CANARY
+    }
+    fn keep(&self, k: usize, raw: *const Self) {
+        let mut o = self.out.get();
+        o[k] = raw;
+        self.out.set(o);
+    }
+}
+
+/// Zero-sized payload: the allocation is the header alone.
+impl Payload for () {
+    const NAME: &'static str = "zero-sized";
+    fn make(_: u32) -> Self {}
+    fn intact(&self, _: u32) -> bool {
+        true
+    }
+    fn keep(&self, _: usize, _: *const Self) {}
+}
+
+/// Over-aligned payload: padding between the header and the value.
+#[repr(align(64))]
+pub struct Wide {
+    id: u32,
+    canary: Cell<u64>,
+}
+
+impl Payload for Wide {
+    const NAME: &'static str = "64-byte aligned";
+    fn make(id: u32) -> Self {
+        Wide { id, canary: Cell::new(CANARY) }
+    }
+    fn intact(&self, id: u32) -> bool {
+        self.id == id && self.canary.get() == CANARY && (self as *const Wide as usize) % 64 == 0
+    }
+    fn keep(&self, _: usize, _: *const Self) {}
+}
+
+fn new_node<T: Payload>(id: u32) -> Rc<T> {
     let p = alloc::enter_lib();
-    let rc = Rc::new(RawNode { id, canary: Cell::new(CANARY), out: Cell::new([std::ptr::null(); MAX_OUT]), n_out: Cell::new(0) });
+    let rc = Rc::new(T::make(id));
     alloc::restore(p);
     rc
 }
 
-/// `a` comes to own a new recorded handle to `b` (kept in raw form inside `a`'s value).
-fn link(a: &Rc<RawNode>, b: &Rc<RawNode>) -> bool {
-    let k = a.n_out.get();
+/// `a` comes to own a new recorded handle to `b` (kept in raw form).
+fn link<T: Payload>(a: &Rc<T>, b: &Rc<T>, k: usize) -> bool {
     if k >= MAX_OUT {
         return false;
     }
@@ -53,10 +103,7 @@ fn link(a: &Rc<RawNode>, b: &Rc<RawNode>) -> bool {
     unsafe { Rc::adopt_unchecked(a, &h) };
     let raw = Rc::into_raw(h);
     alloc::restore(p);
-    let mut o = a.out.get();
-    o[k] = raw;
-    a.out.set(o);
-    a.n_out.set(k + 1);
+    a.keep(k, raw);
     true
 }
 
@@ -67,17 +114,27 @@ fn viol(res: &mut HistResult, prop: &'static str, rule: &'static str, msg: Strin
 }
 
 pub fn run(idx: u64, seed: u64, res: &mut HistResult) -> String {
-    assert!(!std::mem::needs_drop::<RawNode>());
+    match idx % 4 {
+        2 => run_with::<()>(idx, seed, res),
+        3 => run_with::<Wide>(idx, seed, res),
+        _ => run_with::<RawNode>(idx, seed, res),
+    }
+}
+
+fn run_with<T: Payload>(idx: u64, seed: u64, res: &mut HistResult) -> String {
+    assert!(!std::mem::needs_drop::<T>());
     let mut rng = Rng::new(crate::rng::mix(seed ^ 0x0D20, idx));
     let na = 1 + rng.below(5); // members of A
     let nb = if rng.chance(1, 3) { 1 + rng.below(3) } else { 0 };
     let kind = rng.below(4);
     alloc::reset_lib_accounting();
     let p0 = Paths::snapshot();
-    let nodes: Vec<Rc<RawNode>> = (0..na + nb).map(|i| new_node(i as u32)).collect();
+    let nodes: Vec<Rc<T>> = (0..na + nb).map(|i| new_node::<T>(i as u32)).collect();
     let mut indeg = vec![0usize; na + nb]; // handles owned by values
+    let mut outdeg = vec![0usize; na + nb];
     let mut edge = |a: usize, b: usize, indeg: &mut Vec<usize>| {
-        if link(&nodes[a], &nodes[b]) {
+        if link(&nodes[a], &nodes[b], outdeg[a]) {
+            outdeg[a] += 1;
             indeg[b] += 1;
         }
     };
@@ -117,7 +174,7 @@ pub fn run(idx: u64, seed: u64, res: &mut HistResult) -> String {
             edge(rng.below(na), na + rng.below(nb), &mut indeg);
         }
     }
-    let weaks: Vec<Weak<RawNode>> = nodes
+    let weaks: Vec<Weak<T>> = nodes
         .iter()
         .map(|n| {
             let p = alloc::enter_lib();
@@ -126,13 +183,13 @@ pub fn run(idx: u64, seed: u64, res: &mut HistResult) -> String {
             w
         })
         .collect();
-    let mut prog: Vec<Option<Rc<RawNode>>> = nodes.into_iter().map(Some).collect();
+    let mut prog: Vec<Option<Rc<T>>> = nodes.into_iter().map(Some).collect();
     // give up the handles to A in a random order
     let mut order: Vec<usize> = (0..na).collect();
     for i in (1..order.len()).rev() {
         order.swap(i, rng.below(i + 1));
     }
-    let desc = format!("nodrop kind={} A={} B={} order={:?}", kind, na, nb, order);
+    let desc = format!("nodrop payload={} kind={} A={} B={} order={:?}", T::NAME, kind, na, nb, order);
     for (step, &x) in order.iter().enumerate() {
         let h = prog[x].take().unwrap();
         let p = alloc::enter_lib();
@@ -171,8 +228,8 @@ pub fn run(idx: u64, seed: u64, res: &mut HistResult) -> String {
                     alloc::restore(p);
                     match up {
                         Some(rc) => {
-                            if rc.id != i as u32 || rc.canary.get() != CANARY {
-                                viol(res, "C01", "live", format!("{}: object {} is damaged (id {}, canary {:x})", desc, i, rc.id, rc.canary.get()));
+                            if !rc.intact(i as u32) {
+                                viol(res, "C01", "live", format!("{}: object {} is damaged or misplaced (value at {:p})", desc, i, Rc::as_ptr(&rc)));
                             }
                             let p = alloc::enter_lib();
                             drop(rc);
@@ -209,6 +266,12 @@ pub fn run(idx: u64, seed: u64, res: &mut HistResult) -> String {
         let c = alloc::counters();
         if c.lib_live_blocks != 0 {
             viol(res, "C04", "mem", format!("{}: every object is destroyed and every Weak dropped, but the library still holds {} block(s) / {} byte(s)", desc, c.lib_live_blocks, c.lib_live_bytes));
+        }
+    }
+    if alloc::ENABLED {
+        let c = alloc::counters();
+        if c.invalid_frees != 0 || c.layout_mismatch != 0 || c.write_after_free != 0 {
+            viol(res, "C02", "mem", format!("{}: allocator faults (invalid frees {}, releases with another layout {}, writes after free {})", desc, c.invalid_frees, c.layout_mismatch, c.write_after_free));
         }
     }
     res.paths = Paths::snapshot().minus(&p0);
